@@ -55,6 +55,7 @@ package jet
 //@   modifies map l.files, ghost Held
 //@   nopanic
 //@   ensures [set-stores-under-the-normalised-path] has(l.files, Norm(templatePath)) && len(l.files[Norm(templatePath)]) == len(contents)
+//@   ensures [stored-contents-get-a-buffer-of-their-own] {C11,C19} fresh(l.files[Norm(templatePath)])
 //@   ensures [set-leaves-other-entries] forallT(k, "string", k != Norm(templatePath) ==> has(l.files, k) == old(has(l.files, k)) && l.files[k] == old(l.files[k]))
 //@   ensures [lock-released] Held == old(Held)
 
@@ -132,3 +133,7 @@ package jet
 //@ frame {C11,C10} stores-any BlockParameterList only-in (*Template).*
 //@ frame {C11} stores-any Set only-in NewSet, WithCache, WithSafeWriter, WithDelims, WithCommentDelims, WithTemplateNameExtensions, DevelopmentMode, (*Set).AddGlobal
 //@ frame {C11} stores-global * only-in init, init#1, embedfs.init, httpfs.init, multi.init, utils.init
+
+// Loaders are only ever asked through the Set's lookup path, which hands them canonical paths (C15).
+//@ frame {C15} calls (Loader).Exists only-in (*Set).getTemplateFromLoader, (*multi.Multi).Exists
+//@ frame {C15} calls (Loader).Open only-in (*Set).loadFromFile, (*multi.Multi).Open
